@@ -166,3 +166,26 @@ Inductive compat : otv -> otv -> Prop :=
     Forall2 (fun d v => fst d = fst v /\ compat (snd d) (snd v) /\
                         (o_omitted (snd v) = true -> o_strip (snd d) = o_strip (snd v))) fd fv ->
     compat (ORec o fd) (ORec o' fv).
+
+(* keys unique at every struct level *)
+Inductive o_wf : otv -> Prop :=
+| W_sc o z s : o_wf (OSc o z s)
+| W_rec o fs : NoDup (map fst fs) -> Forall (fun e => o_wf (snd e)) fs -> o_wf (ORec o fs).
+
+(* the setting at key path p of the typed configuration *)
+Fixpoint o_get (p : path) (v : otv) : option otv :=
+  match p with
+  | [] => Some v
+  | k :: r => match v with ORec _ fs => opt_bind (lookup k fs) (o_get r) | OSc _ _ _ => None end
+  end.
+
+(* ... provided no field on the way (p itself included) is left out as omitempty-and-zero *)
+Fixpoint o_get_vis (p : path) (v : otv) : option otv :=
+  match p with
+  | [] => Some v
+  | k :: r =>
+      match v with
+      | ORec _ fs => opt_bind (lookup k fs) (fun x => if o_omitted x then None else o_get_vis r x)
+      | OSc _ _ _ => None
+      end
+  end.
